@@ -250,7 +250,9 @@ def run_fermion(case, ctx):
     rng, pr, s = case_rng(ctx.seed, "C06", "fermion", case["i"])
     n_orb = pr.choice([1, 2])
     n = 2 * n_orb
-    H = fock.random_hermitian_fermion_terms(rng, n_orb, restricted=pr.random() < 0.5, scale=0.5, two_body=pr.random() < 0.6)
+    cplx = case["i"] % 4 == 2
+    H = fock.random_hermitian_fermion_terms(rng, n_orb, restricted=pr.random() < 0.5, scale=0.5, two_body=pr.random() < 0.6, cplx=cplx)
+    ctx.tab("fermionic_coefficients", "complex" if cplx else "real")
     H = {t: c for t, c in H.items() if abs(c) > 1e-12 and not (len(t) == 4 and (t[0] == t[1] or t[2] == t[3]))}
     mapping = pr.choice(["JW", "BK", "JKMN", "SCBK"]) if n >= 4 else pr.choice(["JW", "BK", "JKMN"])
     utd = pr.random() < 0.5
